@@ -58,7 +58,11 @@ func buildTwo(c twoCfg) (*vWorld, int, int) {
 		w.symNodes("B.", b, c.nB, []int{tcNone, tcEsc, tcForce}, false, []int{0}, false)
 	}
 	// pods: one per group, pending, symbolic request
-	if !c.emptyA {
+	hasPodA := !c.emptyA
+	if c.podOnNodeA && !c.emptyA {
+		hasPodA = verifChoice(c.pa+"hasPod", 2) == 1 // a group may have nodes and no pods at all
+	}
+	if hasPodA {
 		if c.podOnNodeA && c.nA > 0 {
 			// the pod sits on A's first node, or is unscheduled
 			node := verifChoice(c.pa+"p0.node", 2) - 1
@@ -67,7 +71,7 @@ func buildTwo(c twoCfg) (*vWorld, int, int) {
 			w.symPods(c.pa, a, 1, 1, false, -3*w.cpuPerNode, false)
 		}
 	}
-	if c.defaultA && !c.emptyA {
+	if c.defaultA && hasPodA {
 		// pods of the default group carry no selector
 		w.pods[len(w.pods)-1].obj.Spec.NodeSelector = nil
 	}
